@@ -3205,7 +3205,9 @@ fn main() {
                         late_targets.push(Target { file: "<crate expansion>", imp: "BTreeMap<K,V>", tr, name, coq: leak(coq) });
                     }
                 }
-                for (arity, imp) in [(2, "(A,B)"), (3, "(A,B,C)"), (4, "(A,B,C,D)")] {
+                for (arity, imp) in [(2, "(A,B)"), (3, "(A,B,C)"), (4, "(A,B,C,D)"), (5, "(A,B,C,D,E)"), (6, "(A,B,C,D,E,F)"), (7, "(A,B,C,D,E,F,G)"),
+                                     (8, "(A,B,C,D,E,F,G,H)"), (9, "(A,B,C,D,E,F,G,H,I)"), (10, "(A,B,C,D,E,F,G,H,I,J)"), (11, "(A,B,C,D,E,F,G,H,I,J,K)"),
+                                     (12, "(A,B,C,D,E,F,G,H,I,J,K,L)")] {
                     for (tr, short, fns) in [("Encode", "enc", vec!["is_ssz_fixed_len", "ssz_fixed_len", "ssz_bytes_len", "ssz_append"]), ("Decode", "dec", vec!["is_ssz_fixed_len", "ssz_fixed_len", "from_ssz_bytes"])] {
                         for name in fns {
                             let coq = if name == "is_ssz_fixed_len" || name == "ssz_fixed_len" { format!("tuple{}_{}_{}", arity, short, name) } else { format!("tuple{}_{}", arity, name) };
